@@ -95,6 +95,79 @@ class Class:
         return f'<Class {self.fq}>'
 
 
+class FuncTable(dict):
+    """functions of a module by qualified name. A function that was moved to another module of the package and is
+    imported back under the same name (`from .context_insertion import insert_context`) is still found by get() / [] /
+    `in`, so that a rule anchored on `module.function` follows the move; iteration lists only the functions defined here."""
+    repo = None
+    module = None
+
+    def _imported(self, key):
+        if self.repo is None or not isinstance(key, str) or '#' in key:
+            return None
+        if '.' in key:
+            # 'Class.method' of a class that was moved out and imported back
+            head, rest = key.split('.', 1)
+            c = self.module.classes.get(head)
+            if c is not None and c.module is not self.module:
+                return dict.get(c.module.functions, f'{c.name}.{rest}')
+            return None
+        imp = self.module.imports.get(key)
+        if not (isinstance(imp, tuple) and imp[0] == 'attr'):
+            return None
+        r = self.repo.resolve(self.module, key)
+        if r and r[0] == 'func' and r[1].module is not self.module:
+            return r[1]
+        return None
+
+    def get(self, key, default=None):
+        if dict.__contains__(self, key):
+            return dict.__getitem__(self, key)
+        f = self._imported(key)
+        return f if f is not None else default
+
+    def __missing__(self, key):
+        f = self._imported(key)
+        if f is None:
+            raise KeyError(key)
+        return f
+
+    def __contains__(self, key):
+        return dict.__contains__(self, key) or self._imported(key) is not None
+
+
+class ClassTable(dict):
+    """classes of a module by name; like FuncTable, a class moved to another module and imported back is still found"""
+    repo = None
+    module = None
+
+    def _imported(self, key):
+        if self.repo is None or not isinstance(key, str) or '.' in key:
+            return None
+        imp = self.module.imports.get(key)
+        if not (isinstance(imp, tuple) and imp[0] == 'attr'):
+            return None
+        r = self.repo.resolve(self.module, key)
+        if r and r[0] == 'class' and r[1].module is not self.module:
+            return r[1]
+        return None
+
+    def get(self, key, default=None):
+        if dict.__contains__(self, key):
+            return dict.__getitem__(self, key)
+        c = self._imported(key)
+        return c if c is not None else default
+
+    def __missing__(self, key):
+        c = self._imported(key)
+        if c is None:
+            raise KeyError(key)
+        return c
+
+    def __contains__(self, key):
+        return dict.__contains__(self, key) or self._imported(key) is not None
+
+
 @dataclass
 class Module:
     name: str
@@ -132,7 +205,14 @@ class Repo:
                 tree = ast.parse(text, filename=str(p))
             except SyntaxError as e:
                 raise AnalysisError(f'{p}: does not parse: {e}')
+            if 'match ' in text:
+                from .desugar import desugar
+                tree, _n = desugar(tree)
             m = Module(name, p, tree, text, is_pkg)
+            m.functions = FuncTable()
+            m.functions.repo, m.functions.module = self, m
+            m.classes = ClassTable()
+            m.classes.repo, m.classes.module = self, m
             self.modules[name] = m
             self._index(m)
         self._subclasses = None
@@ -152,7 +232,7 @@ class Repo:
                     # later definitions (e.g. property setters, overloads) do not replace the first
                     key = q
                     k = 1
-                    while key in m.functions:
+                    while dict.__contains__(m.functions, key):
                         k += 1
                         key = f'{q}#{k}'
                     f.qualname = key
@@ -243,6 +323,23 @@ class Repo:
                     return self.modules[mn].classes[q]
         raise AnalysisError(f'anchor class {fq} not found')
 
+    def scope(self, m):
+        """(classes, functions) a rule anchored on module m should look at: those defined in m plus the package's own
+        classes / functions that m imports by name (a class moved to a helper module and imported back stays in scope)"""
+        classes = list(dict.values(m.classes))
+        funcs = list(dict.values(m.functions))
+        for name, imp in m.imports.items():
+            if not (isinstance(imp, tuple) and imp[0] == 'attr' and str(imp[1]).startswith(self.pkg)):
+                continue
+            r = self.resolve(m, name)
+            if r and r[0] == 'class' and r[1] not in classes:
+                classes.append(r[1])
+                funcs += [f for f in dict.values(r[1].module.functions) if f.cls is r[1] or (
+                    f.parent is not None and f.parent.cls is r[1])]
+            elif r and r[0] == 'func' and r[1] not in funcs:
+                funcs.append(r[1])
+        return classes, funcs
+
     def all_funcs(self):
         for m in self.modules.values():
             yield from m.functions.values()
@@ -262,10 +359,10 @@ class Repo:
         parts = name.split('.')
         head, rest = parts[0], parts[1:]
         cur = None
-        if head in m.classes:
-            cur = ('class', m.classes[head])
-        elif head in m.functions:
-            cur = ('func', m.functions[head])
+        if dict.__contains__(m.classes, head):
+            cur = ('class', dict.__getitem__(m.classes, head))
+        elif dict.__contains__(m.functions, head):
+            cur = ('func', dict.__getitem__(m.functions, head))
         elif head in m.imports and head != '*':
             imp = m.imports[head]
             if imp[0] == 'mod':
@@ -299,7 +396,7 @@ class Repo:
         if modname in self.modules:
             sub = f'{modname}.{attr}'
             mm = self.modules[modname]
-            if attr in mm.classes or attr in mm.functions or attr in mm.imports or attr in mm.globals_:
+            if dict.__contains__(mm.classes, attr) or dict.__contains__(mm.functions, attr) or attr in mm.imports or attr in mm.globals_:
                 r = self.resolve(mm, attr, depth)
                 if r:
                     return r
